@@ -570,6 +570,64 @@ theorem trash_keeps_newest_nocover (K : List Bytes) (db : DB) (cut : Nat) (k : B
       · have := h j e'.2 hj (by rw [← hkey']; exact he'db)
         omega
 
+/-- the condition is also necessary at the top of the store: if the remembered prefix of the
+GREATEST record `x` is a prefix of the data key of a record `e`, then `Trash(cut)` treats `e` as an
+older version of `x`'s key and removes it whenever its version is at most the cut — whatever key
+`e` belongs to, newest version or not.  (S-C09b is the instance x = ("a", v), e = ("a!", v').) -/
+theorem trash_collects_covered_by_top (K : List Bytes) (front : DB) (x e : Bytes × Bytes) (cut : Nat)
+    (p : Bytes) (v : Int) (hwf : WF K (front ++ [x])) (he : e ∈ front)
+    (hp : cutVersion x.1 = some p) (hcov : p.isPrefixOf e.1 = true)
+    (hv : getVersion e.1 = some v) (hle : v ≤ Int.ofNat cut) :
+    e ∉ trash (front ++ [x]) cut := by
+  intro hmem
+  have hdel : e.1 ∈ trashDels (front ++ [x]) cut := by
+    unfold trashDels
+    rw [List.reverse_append, List.reverse_singleton, List.singleton_append, List.foldl_cons]
+    -- first step: x opens a new prefix (the sentinel is no prefix of a data key)
+    obtain ⟨kx, _, jx, _, hxk⟩ := hwf.2 x (by simp)
+    have hs : sentinel.isPrefixOf x.1 = false := by rw [hxk]; exact sentinel_not_prefix kx jx
+    have hstep : trashStep cut (sentinel, []) x = (p, []) := by
+      unfold trashStep
+      simp [hs, hp]
+    rw [hstep]
+    -- split the remaining records at e
+    obtain ⟨l1, l2, hsplit⟩ := List.append_of_mem (List.mem_reverse.2 he)
+    rw [hsplit, List.foldl_append, List.foldl_cons]
+    have hsorted := hwf.1
+    have hfront : front = l2.reverse ++ e :: l1.reverse := by
+      have := congrArg List.reverse hsplit
+      simpa using this
+    -- every record above e (and below x) extends p
+    have hall : ∀ a ∈ l1, p.isPrefixOf a.1 = true := by
+      intro a ha
+      apply List.isPrefixOf_iff_prefix.2
+      have hpx : p <+: x.1 := by
+        rw [hxk, cutVersion_getKey] at hp
+        rw [← Option.some.inj hp, hxk, getKey]
+        exact ⟨[dot] ++ pad20 jx, by simp⟩
+      have hs2 : Sorted (l2.reverse ++ e :: l1.reverse ++ [x]) := by rw [← hfront]; exact hsorted
+      have hpw := List.pairwise_append.1 hs2
+      have hax : blt a.1 x.1 = true := hpw.2.2 a (by simp [ha]) x (by simp)
+      have hea : blt e.1 a.1 = true := by
+        have h3 := (List.pairwise_append.1 hpw.1).2.1
+        exact (List.pairwise_cons.1 h3).1 a (by simp [ha])
+      exact prefix_interval p e.1 a.1 x.1 (List.isPrefixOf_iff_prefix.1 hcov) hpx (ble_of_blt hea) (ble_of_blt hax)
+    obtain ⟨h1, _, _⟩ := trash_fold_covered cut l1 p [] hall
+    have hst : l1.foldl (trashStep cut) (p, []) = (p, (l1.foldl (trashStep cut) (p, [])).2) :=
+      Prod.ext h1 rfl
+    rw [hst]
+    apply trash_fold_mono
+    have hse : trashStep cut (p, (l1.foldl (trashStep cut) (p, [])).2) e =
+        (p, e.1 :: (l1.foldl (trashStep cut) (p, [])).2) := by
+      unfold trashStep
+      simp only [hcov, Bool.not_true, Bool.false_eq_true, if_false, hv]
+      rw [if_pos hle]
+    rw [hse]
+    exact List.mem_cons_self
+  have := (List.mem_filter.1 hmem).2
+  simp only [Bool.not_eq_true', List.contains_eq_mem, decide_eq_false_iff_not] at this
+  exact this hdel
+
 /-- `PrefixFree` key sets give `NoForeignCover` stores: the earlier partial theorem is a corollary. -/
 theorem prefixFree_noForeignCover (K : List Bytes) (db : DB) (hwf : WF K db) (hpf : PrefixFree K) :
     NoForeignCover db := by
